@@ -416,6 +416,15 @@ class TIMachine(FormatMachine):
         s.model["images"].setdefault(op["platform"], {})[op["name"]] = op["path"]
         return "ok"
 
+    def op_ti_image_table(self, op):
+        """a platform gets an (empty) image table"""
+        s = self.slot(op)
+        if s is None:
+            return "noop"
+        s.obj.images.images.setdefault(op["platform"], {})
+        s.model["images"].setdefault(op["platform"], {})
+        return "ok"
+
     def op_ti_image_del(self, op):
         s = self.slot(op)
         if s is None or op["platform"] not in s.model["images"]:
@@ -919,7 +928,12 @@ class TIMachine(FormatMachine):
         v = new.variants.variants.get(g["variant"])
         if v is not None:
             if "packagedir" in g:
-                facts.append(("packagedir", v.paths.source_packages if src else v.paths.packages, g["packagedir"].rstrip("/") or "."))
+                want_pk = g["packagedir"].rstrip("/") or "."
+                if g["family"] == "Fedora" and want_pk == ".":
+                    # the one documented conversion example (doc/treeinfo-1.x.rst): Fedora kept its RPMs in 'Packages' and
+                    # wrote an empty packagedir
+                    want_pk = "Packages"
+                facts.append(("packagedir", v.paths.source_packages if src else v.paths.packages, want_pk))
             if "repository" in g:
                 facts.append(("repository", v.paths.source_repository if src else v.paths.repository, g["repository"].rstrip("/") or "."))
         if "discnum" in g:
